@@ -120,6 +120,15 @@ def families(tier):
         out.append(dict(prop='C14', family='c14.burst.raced', id=f'c14/raced-h{hist}-{src}', cfg=dict(bound=2 if deep else 1, cap=6000 if deep else 700, window=0.25, max_targets=1, busy=True),
                         params=dict(K=52, hist=hist, src=src, reoffer=True),
                         scn=dict(buses={'A': dict(hist=hist)}, order=['A'], handlers=hs, main=main, actors=actors, forwards=[], settle=3.0, no_watch=True)))
+    # the bus's background task is cancelled from outside without stop() (a supervisor cancelling every task) while events it had accepted are still queued; the
+    # library revives such a bus on the next dispatch() / wait_until_idle(): what it had accepted is still processed then
+    for hshape, nq, revive, gap in itertools.product(('pause', 'pause_pause'), (1, 3), ('dispatch', 'idle'), (0.05, 0.3)):
+        hs = [dict(bus='A', pat='P', name='hp', prog=[('pause',)] * (2 if hshape == 'pause_pause' else 1) + [('ret', 1)]), dict(bus='A', pat='X', name='hx', prog=[('ret', 0)], kind='sync'),
+              dict(bus='A', pat='Y', name='hy', prog=[('ret', 0)])]
+        main = [('disp', 'A', 'P', 'ff')] + [('disp', 'A', f'X{i + 1}', 'ff') for i in range(nq)] + [('pause',)] + [('cancel_loop', 'A'), ('sleep', gap)]  # (the cancelled task is given time to unwind completely: see observation O2 in DESIGN.md for the window before that)
+        main += ([('disp', 'A', 'Y1', 'ff')] if revive == 'dispatch' else []) + [('idle', 'A')]
+        out.append(dict(prop='C14', family='c14.background_task_cancelled_then_revived', id=f'c14/revive-{hshape}-q{nq}-{revive}-g{gap}', cfg=cfg, params=dict(K=nq, hist=50, src='main', reoffer=False, revived=True),
+                        scn=dict(buses={'A': {}}, order=['A'], handlers=hs, main=main, actors=[], forwards=[], settle=3.0, no_watch=True)))
     # the grammar-generated corpus shared by the bus properties (vsched/gen.py) with a 0.5 s handler time-out on the root event: whatever a time-out
     # interrupts (a handler waiting for its turn to process an awaited child inline, a sibling, the child itself), every event a dispatch() ACCEPTED
     # still ends completed, and wait_until_idle() returns
@@ -136,7 +145,7 @@ def trigger(spec, res):
     n_rej = sum(1 for r in res['log'] if r[2] == 'dispatch' and r[6].startswith('raised'))
     if spec['family'].endswith('evicted_while_queued'):
         return (spec['params']['hist'] or 99) < spec['params']['K']  # the backlog exceeds the history: pending events get evicted while queued
-    return n_rej > 0 or spec['params']['K'] >= 50
+    return n_rej > 0 or spec['params']['K'] >= 50 or bool(spec['params'].get('revived'))
 
 
 def oracle(spec, res):
